@@ -162,9 +162,9 @@ def check_config(ctx, clock, fs_only):
 
 def run(ctx):
     check_config(ctx, 60e6, False)
+    check_config(ctx, 12e6, True)          # the full-speed-only device clock (USBDevice on a 12 MHz PHY): its own delay table
     if ctx.tier == 'thorough':
         check_config(ctx, 60e6, True)
-        check_config(ctx, 12e6, True)
     # wiring of the speed input (property anchors device.py)
     for cls, mod in (('USBDevice', 'usb2.device'), ('USBTokenDetector', 'usb2.packet')):
         ir = ctx.ir(cls, mod, allow_opaque=True)
